@@ -54,11 +54,18 @@ def decode_command_string(bcp_string) -> Tuple[str, dict]:
 
     for k, v in kwargs.items():
         if isinstance(v[0], str):
-            if v[0].startswith('int:'):
-                v[0] = int(v[0][4:])
-            elif v[0].startswith('float:'):
-                v[0] = float(v[0][6:])
-            elif v[0].lower() == 'bool:true':
+            try:
+                if v[0].startswith('int:'):
+                    v[0] = int(v[0][4:])
+                    continue
+                if v[0].startswith('float:'):
+                    v[0] = float(v[0][6:])
+                    continue
+            except ValueError:
+                # not a number after all: it is a plain string which merely starts like a typed value
+                pass
+
+            if v[0].lower() == 'bool:true':
                 v[0] = True
             elif v[0].lower() == 'bool:false':
                 v[0] = False
